@@ -7,6 +7,7 @@ import (
 	"errors"
 	"fmt"
 	"io"
+	"math"
 	"strconv"
 	"strings"
 	"sync"
@@ -1441,6 +1442,17 @@ func (ro *RedisOutput) bisyncStartPoint(ctx context.Context, runIDs []string) (S
 		if err != nil {
 			return sp, 0, false, err
 		}
+		// A root checkpoint ahead of the frontier means that a full sync has been completed since
+		// the frontier was stored: the frontier, and every journal record that ends at or before the
+		// root checkpoint, describe units the snapshot contains, numbered before the numbering started
+		// over. Joined with records written since, they would close gaps that are not closed.
+		rootIsOurs := checkpoint.MatchBisyncRunID(rootStartPoint.RunId, runIDs)
+		if snapshot != nil && rootIsOurs && snapshot.Offset < rootStartPoint.Offset {
+			if _, err := cli.Do("del", snapshotKey); err != nil {
+				return sp, 0, false, err
+			}
+			snapshot = nil
+		}
 		minSeq := int64(1)
 		if snapshot != nil && snapshot.UnitSeq > 0 {
 			minSeq = snapshot.UnitSeq + 1
@@ -1448,6 +1460,26 @@ func (ro *RedisOutput) bisyncStartPoint(ctx context.Context, runIDs []string) (S
 		records, err := checkpoint.LoadBisyncCommitRecords(cli, checkpointName, slots, runIDs, minSeq)
 		if err != nil {
 			return sp, 0, false, err
+		}
+		if rootIsOurs {
+			current := records[:0]
+			var stale []*checkpoint.BisyncCommitRecord
+			var staleKeys []string
+			for _, record := range records {
+				if record.EndOffset <= rootStartPoint.Offset {
+					stale = append(stale, record)
+					staleKeys = append(staleKeys, record.Key)
+					continue
+				}
+				current = append(current, record)
+			}
+			if len(stale) > 0 {
+				if err := checkpoint.DeleteBisyncCommitKeys(cli, staleKeys); err != nil {
+					return sp, 0, false, err
+				}
+				ro.cleanupRecoveredBisyncCommitRecords(cli, checkpointName, &checkpoint.BisyncFrontierSnapshot{UnitSeq: math.MaxInt64}, stale)
+			}
+			records = current
 		}
 		ro.logger.Infof("bisync startpoint parallel: checkpoint(%s), slots(%d), snapshot(%+v), records(%d), minSeq(%d), runIDs(%v)", checkpointName, len(slots), snapshot, len(records), minSeq, runIDs)
 		frontier, err := checkpoint.RebuildBisyncFrontier(snapshot, records)
